@@ -11,7 +11,8 @@ PROPERTY = 'C10'
 RULE = ('complete vocabulary space: every non-obsolete entry of unimod.obo, psi-mod.obo, xlmod.obo and every '
         'monosaccharide (read by an independent OBO reader) x every documented spelling x 4 observations; generic forms: '
         'all formulas of <=3 terms (any order, a symbol may be written more than once) over {C,H,N,O,13C,2H,Na} x counts {-2,1,2,12,1.5}, all glycans of <=3 terms over '
-        '{Hex,HexNAc,Fuc,Neu5Ac} x {1,2,3}, prefixed signed shifts, decorations; a state = one vocabulary entry or one '
+        '{Hex,HexNAc,Fuc,Neu5Ac} x {1,2,3}, prefixed signed shifts, decorations; every accession/name shared by two '
+        'vocabularies asked in every order of the vocabularies against isolated reference answers; a state = one vocabulary entry or one '
         'generic form; non-trivial = has at least two spellings / a non-empty formula')
 ASSUMPTIONS = ['"same error" = every spelling raises some ValueError subclass',
                'bare names that occur twice inside one vocabulary, or in both PSI-MOD and Unimod, are compared through '
@@ -64,7 +65,43 @@ def shards(tier):
             out.append({'kind': 'vocab', 'db': k, 'lo': i, 'hi': min(len(L), i + 50)})
     out += [{'kind': 'formula', 'first': i} for i in range(len(FEL))]
     out += [{'kind': 'glycan'}, {'kind': 'generic'}]
+    keys = cross_keys()
+    _cross_baselines(keys)          # computed here, in the pristine parent; inherited by the forked workers
+    out += [{'kind': 'cross', 'lo': i, 'hi': min(len(keys), i + 40)} for i in range(0, len(keys), 40)]
     return out
+
+
+CROSS_PFX = {'unimod': 'U:', 'psimod': 'M:', 'xlmod': 'X:'}
+_cross_base = {}
+
+
+def cross_keys():
+    """accessions and names that occur in at least two of the bundled vocabularies: [key, [vocabularies]]"""
+    v = vocab()
+    where = {}
+    for db in ('unimod', 'psimod', 'xlmod'):
+        for e in v[db]:
+            for k in (e['acc'], e['name']):
+                if k and '[' not in k and ']' not in k:
+                    where.setdefault(k, set()).add(db)
+    return sorted([k, sorted(dbs)] for k, dbs in where.items() if len(dbs) >= 2)
+
+
+def _obs_plain(sp):
+    p = lib.pt()
+    out = []
+    for o in _obs(p, sp):
+        out.append(None if o is None else [o[0], o[1] if o[0] == 'ok' else type(o[1]).__name__])
+    return out
+
+
+def _cross_baselines(keys):
+    """the observation vector of each prefixed spelling, computed in one forked child per vocabulary: a child has
+    resolved nothing before and only ever asks its own vocabulary"""
+    for db in CROSS_PFX:
+        sps = [CROSS_PFX[db] + k for k, dbs in keys if db in dbs and CROSS_PFX[db] + k not in _cross_base]
+        if sps:
+            _cross_base.update(lib.isolated(lambda: {sp: _obs_plain(sp) for sp in sps}))
 
 
 FEL = ['C', 'H', 'N', 'O', '13C', '2H', 'Na']
@@ -90,6 +127,10 @@ def gen(shard, tier):
             for els in itertools.permutations(range(len(names)), m):
                 for counts in itertools.product((1, 2, 3), repeat=m):
                     yield {'kind': 'glycan', 'els': list(els), 'counts': list(counts)}, m, True
+    elif shard['kind'] == 'cross':
+        keys = cross_keys()
+        for i in range(shard['lo'], shard['hi']):
+            yield {'kind': 'cross', 'key': keys[i][0], 'dbs': keys[i][1]}, len(keys[i][1]), True
     else:
         for i, _ in enumerate(GENERIC):
             yield {'kind': 'generic', 'i': i}, 1, True
@@ -175,6 +216,11 @@ GENERIC = [
     ('Obs:+15.99', 15.99), ('Obs:15.99', 15.99), ('obs:-17.0265', -17.0265), ('OBS:+0.5', 0.5),
     ('+15.995', 15.995), ('15.995', 15.995), ('-18.0106', -18.0106), ('1', 1.0), ('+1', 1.0), ('0.5', 0.5),
 ]
+# every documented prefix (all case variants used for names) with a signed number is a mass shift
+GENERIC += [(pf + v, float(v)) for pf in ['U:', 'UNIMOD:', 'unimod:', 'u:', 'Unimod:', 'UniMod:', 'M:', 'MOD:', 'PSI-MOD:',
+                                          'mod:', 'm:', 'psi-mod:', 'Psi-Mod:', 'X:', 'XLMOD:', 'xlmod:', 'x:', 'R:',
+                                          'RESID:', 'resid:', 'r:', 'G:', 'GNO:', 'gno:', 'g:', 'Obs:', 'obs:']
+            for v in ('+15.9949', '-1.5') if (pf + v, float(v)) not in GENERIC]
 DECOR_BASES = ['Oxidation', 'U:35', 'Formula:C2H2O', 'Glycan:Hex', '15.995', 'Obs:+15.99', 'M:00719', 'X:DSS',
                'Label:13C(6)', 'Xlink:DTSSP[88]']
 
@@ -228,6 +274,27 @@ def check(case, ctx):
                 if base[0][0] != 'ok':
                     ctx.fail('library-cannot-resolve-entry', e['mono'], base[0][1], entry=label, spelling=base_sp)
         ctx.outcome = [label, _s(base[0])]
+    elif kind == 'cross':
+        # one key, several vocabularies: whichever vocabulary is asked first, each prefixed spelling answers as it does
+        # in a process that has resolved nothing else (history = every order of the vocabularies, run back to back)
+        key, dbs = case['key'], case['dbs']
+        n = 0
+        for order in itertools.permutations(dbs):
+            for db in order:
+                sp = CROSS_PFX[db] + key
+                if sp not in _cross_base:
+                    _cross_baselines([[key, dbs]])
+                got = _obs_plain(sp)
+                ctx.evals += 4
+                n += 1
+                want = _cross_base[sp]
+                for k, (a, b) in enumerate(zip(want, got)):
+                    same = a == b or (a and b and a[0] == b[0] == 'ok' and not isinstance(a[1], dict) and
+                                      lib.close(a[1], b[1], 1e-9))
+                    if not same:
+                        ctx.fail('cross-vocabulary-history', a, b, spelling=sp, asked_in_order=list(order),
+                                 what=['mod_mass-mono', 'mod_mass-avg', 'mod_comp', 'mass-K[..]'][k])
+        ctx.outcome = [key, n]
     elif kind == 'formula':
         els = [FEL[i] for i in case['els']]
         counts = [FCOUNT[i] for i in case['counts']]
@@ -280,6 +347,16 @@ def check(case, ctx):
         st, got = lib.call(lambda: p.mass(f'K[{sp}]') - p.mass('K'))
         if st != 'ok' or not lib.close(got, ref, 1e-6):
             ctx.fail('generic-shift-in-peptide', ref, got, spelling=sp)
+        # ... also on the composition path (isotope-labelled peptide, comp_mass, comp with estimate)
+        for lab in ('<13C>', '<15N>'):
+            st, got = lib.call(lambda: p.mass(f'{lab}K[{sp}]') - p.mass(f'{lab}K'))
+            ctx.evals += 2
+            if st != 'ok' or not lib.close(got, ref, 1e-6):
+                ctx.fail('generic-shift-in-labelled-peptide', ref, got, spelling=sp, label=lab)
+        st, got = lib.call(lambda: p.comp_mass(f'K[{sp}]')[1])
+        ctx.evals += 1
+        if st != 'ok' or not lib.close(got, ref, 1e-9):
+            ctx.fail('generic-shift-comp_mass-delta', ref, got, spelling=sp)
         if case['i'] < len(DECOR_BASES):
             b = DECOR_BASES[case['i']]
             st, m0 = lib.call(p.mod_mass, b)
